@@ -4,7 +4,7 @@
    MapKey deserializer of src/de.rs, driven by serde's range-checked primitive visitors); the correspondence check C06 of
    tools/checks/typed.py runs the extracted model against the real crate on the literal families of the property. *)
 From SJ Require Import Base.Bytes Base.FloatB Gen.Tables Model.Read Model.Str Model.Num Model.Value Model.De Model.Ignore
-  Model.Ty Model.DeTyped Spec.Syntax Proofs.NumInt Proofs.TypedInt.
+  Model.Ty Model.DeTyped Spec.Syntax Proofs.NumInt Proofs.TypedInt Proofs.TypedMapKey.
 Open Scope N_scope.
 
 (* An integer literal (optional '-', then `0` or a digit string without leading zero) followed by end of input or a byte that does
@@ -89,6 +89,21 @@ Theorem C06_key_u128 : forall fuel E neg ds rest off pk d,
 Proof. exact TypedInt.C06_key_u128. Qed.
 Print Assumptions C06_key_u128.
 
+(* The whole document {"<literal>":null} read into a map with an 8..64-bit integer key type and unit values (the shape the
+   correspondence check uses for the key route), from any reader state with at least one level of depth budget left. *)
+Theorem C06_map_key : forall fuel E t neg ds rest off pk dk,
+  tm E = TEof -> limit_disabled (cf E) = false -> (S dk < 255)%nat ->
+  is_128 t = false -> int_ok ds = true ->
+  let lit := int_lit neg ds in
+  let v := int_lit_val neg ds in
+  let r := de_typed (S (S (S fuel))) E (TMap (KInt t) TUnit)
+             (mkSt (123 :: 34 :: lit ++ 34 :: null_close ++ rest) off pk (N.of_nat (S (S dk)))) in
+  if in_range t v && negb (is_neg_zero neg ds)
+  then r = TOk (DMap [(DInt v, DUnit)], mkSt rest (off + length lit + 9) false (N.of_nat (S (S dk))))
+  else exists c i, r = TErr c i /\ (c = Message MInvalidValue \/ c = Message MInvalidType \/ c = NumberOutOfRange).
+Proof. exact TypedMapKey.C06_map_key. Qed.
+Print Assumptions C06_map_key.
+
 (* the hypotheses are satisfiable and the statements say what they should *)
 Example C06_ex_i8_max : de_typed 1 E_sl (TInt I8) (init_st [49;50;55]) = TOk (DInt 127, mkSt [] 3 false 128).
 Proof. exact ex_i8_127. Qed.
@@ -98,3 +113,5 @@ Example C06_ex_neg_zero : de_typed 1 E_sl (TInt I8) (init_st [45;48]) = TErr (Me
 Proof. exact ex_i8_neg0. Qed.
 Example C06_ex_key : de_key 1 E_sl (KInt U8) (init_st [34;50;53;53;34;58]) = TOk (DInt 255, mkSt [58] 5 false 128).
 Proof. exact ex_key_u8. Qed.
+Example C06_ex_map_key : from_input_typed E_sl (TMap (KInt U8) TUnit) [123;34;50;53;53;34;58;110;117;108;108;125] = TOk (DMap [(DInt 255, DUnit)]).
+Proof. exact ex_map_u8_255. Qed.
